@@ -522,6 +522,7 @@ func runPipeline(c *ctx, which string) {
 		for i := 0; i < 2*c.scale; i++ {
 			trickleAgainstStalledStore(c, r, i)
 		}
+		unreadAcksBackpressure(c)
 	}
 	n := 60 * c.scale
 	for i := 0; i < n; i++ {
@@ -933,6 +934,57 @@ func trickleAgainstStalledStore(c *ctx, r Rng, i int) {
 	ctx, cancel := context.WithTimeout(context.Background(), 10*time.Second)
 	eng.Stop(ctx)
 	cancel()
+}
+
+// unreadAcksBackpressure (C09): the stores are healthy, but the producer hands in unbuffered done channels and does
+// not receive from them while it keeps calling IngestRows (each call with a short context). Delivery of an
+// acknowledgement is part of the pipeline: with nobody receiving, the flush worker waits, the actor's hand-off
+// waits behind it, the ingest buffer fills and IngestRows stops accepting - the number of accepted, unanswered
+// batches stays within IngestBufferSize + 4*MaxBufferedRows however many are offered.
+func unreadAcksBackpressure(c *ctx) {
+	for _, rows := range []int{1, 2} {
+		cfg := bs.DefaultBloomSearchEngineConfig()
+		cfg.IngestBufferSize = 1
+		cfg.MaxBufferedRows = rows
+		cfg.MaxBufferedTime = time.Hour
+		store := NewMemStore()
+		eng, err := bs.NewBloomSearchEngine(cfg, &FaultMeta{MetaStore: bs.NewMemoryMetaStore(), s: store}, store)
+		if err != nil {
+			fatal("engine: %v", err)
+		}
+		eng.Start()
+		var dones []chan error
+		accepted := 0
+		n := 40
+		for k := 0; k < n; k++ {
+			done := make(chan error) // unbuffered, nobody receives yet
+			ctx, cancel := context.WithTimeout(context.Background(), 40*time.Millisecond)
+			if eng.IngestRows(ctx, []map[string]any{{"_id": k}}, done) == nil {
+				accepted++
+				dones = append(dones, done)
+			}
+			cancel()
+		}
+		bound := cfg.IngestBufferSize + 4*cfg.MaxBufferedRows
+		c.r.Case(true, fmt.Sprint("unread-acks", rows))
+		c.r.Hit("pipeline.unread-acks")
+		if accepted > bound {
+			c.r.Add(Finding{Kind: "violation", Check: "backlog-bound", Detail: fmt.Sprintf("with healthy stores and a producer that never receives from its unbuffered done channels, %d of %d batches were accepted and none answered; bound IngestBufferSize + 4*MaxBufferedRows = %d", accepted, n, bound),
+				Replay: map[string]any{"variant": "unread-acks", "IngestBufferSize": cfg.IngestBufferSize, "MaxBufferedRows": cfg.MaxBufferedRows}})
+		}
+		// now receive everything so the engine can wind down
+		for _, d := range dones {
+			go func(d chan error) {
+				select {
+				case <-d:
+				case <-time.After(10 * time.Second):
+				}
+			}(d)
+		}
+		ctx, cancel := context.WithTimeout(context.Background(), 10*time.Second)
+		eng.Stop(ctx)
+		cancel()
+	}
 }
 
 // faultAtEveryFlushCall (C05): one and two partition flushes with a failure injected at each store call in
